@@ -1618,9 +1618,13 @@ def prod_axioms():
             z3.Or(PRODR(s) >= 1, z3.And(0 <= w, w < rlen(s), relem(s, w) <= 0)),
             [PRODR(s)],
         ),
-        # the empty product
-        T.ForAll([s], z3.Implies(rlen(s) == 0, PRODR(s) == 1), [PRODR(s)]),
     ]
+
+
+def empty_product_axiom():
+    """PROD_R of the empty row is 1 (opt-in: only contracts that meet empty mode lists assume it)."""
+    s = z3.Const("s", Row)
+    return T.ForAll([s], z3.Implies(rlen(s) == 0, PRODR(s) == 1), [PRODR(s)])
 
 
 def seq_as_row(ctx: Ctx, seq):
